@@ -7,8 +7,9 @@ from . import prog
 
 OBJS = ["a", "b", "sub"]
 STRS = ["", "a", "hello", "x y", "é", "あ", "q\"r", "%1"]
-PROP = {"bool": "b", "int": "i", "uint": "u", "string": "s", "vobj": "next"}
-ANNOT = {"bool": ["bool"], "int": ["int"], "uint": ["uint"], "string": ["QString"], "vobj": ["VObj"]}
+PROP = {"bool": "b", "int": "i", "uint": "u", "string": "s", "vobj": "next", "double": "d"}
+ANNOT = {"bool": ["bool"], "int": ["int"], "uint": ["uint"], "string": ["QString"], "vobj": ["VObj"], "double": ["double"]}
+FLOAT_LITS = ["0.0", "0.5", "1.5", "2.0", "0.1", "1e10", "2.5e-3", "100.0"]
 
 
 class Gen:
@@ -69,6 +70,8 @@ class Gen:
             return ("int", self.pick([0, 1, 2, 3, 5, 7, 8, 16, 31, 40, 100]))
         if ty == "string":
             return ("str", self.pick(STRS))
+        if ty == "double":
+            return ("float", self.pick(FLOAT_LITS))
         return ("null",)
 
     def expr(self, ty, d=0):
@@ -85,8 +88,10 @@ class Gen:
             if r < 0.45:
                 return ("binary", self.pick(["&&", "||"]), self.expr("bool", d + 1), self.expr("bool", d + 1))
             if r < 0.85:
-                t = self.pick(["int", "int", "uint", "string", "bool"])
+                t = self.pick(["int", "int", "uint", "string", "bool", "double"])
                 op = self.pick(["==", "!=", "<", "<=", ">", ">="]) if t != "bool" else self.pick(["==", "!="])
+                if t == "double":
+                    return ("binary", op, self.expr("double", d + 1), self.expr("double", d + 1))
                 return ("binary", op, self.operand(t, d + 1), self.operand(t, d + 1))
             if r < 0.92:
                 return ("binary", self.pick(["==", "!="]), self.expr("vobj", d + 1), self.pick([("null",), self.expr("vobj", d + 1)]))
@@ -112,9 +117,11 @@ class Gen:
                 return ("unary", self.pick(["-", "~", "+"]), self.typed(ty, d + 1))
             if r < 0.8:
                 return ("ternary", self.expr("bool", d + 1), self.typed(ty, d + 1), self.typed(ty, d + 1))
-            if r < 0.9:
+            if r < 0.86:
                 other = "uint" if ty == "int" else "int"
                 return ("as", self.typed(other, d + 1), [ty])
+            if r < 0.9:
+                return ("as", self.expr("double", d + 1), [ty])          # truncation toward zero; out of range: undefined
             return ("call", ("member", ("ident", "Math"), self.pick(["max", "min"])), [self.typed(ty, d + 1), self.typed(ty, d + 1)])
         if ty == "string":
             if leaf:
@@ -122,6 +129,19 @@ class Gen:
             if r < 0.7:
                 return ("binary", "+", self.expr("string", d + 1), self.expr("string", d + 1))
             return ("ternary", self.expr("bool", d + 1), self.expr("string", d + 1), self.expr("string", d + 1))
+        if ty == "double":
+            # IEEE-754 binary64: every operator is total (division by zero gives an infinity or a NaN); % is finding F7 and not generated
+            if leaf:
+                return self.pick([self.prop("double", d), self.prop("double", d), self.lit("double")])
+            if r < 0.55:
+                return ("binary", self.pick(["+", "-", "*", "/", "/"]), self.expr("double", d + 1), self.expr("double", d + 1))
+            if r < 0.65:
+                return ("unary", self.pick(["-", "+"]), self.expr("double", d + 1))
+            if r < 0.75:
+                return ("ternary", self.expr("bool", d + 1), self.expr("double", d + 1), self.expr("double", d + 1))
+            if r < 0.9:
+                return ("as", self.typed(self.pick(["int", "uint"]), d + 1), ["double"])
+            return ("call", ("member", ("ident", "Math"), self.pick(["max", "min"])), [self.expr("double", d + 1), self.expr("double", d + 1)])
         if ty == "vobj":
             if leaf or r < 0.7:
                 return self.obj(d)
@@ -150,7 +170,7 @@ class Gen:
     # ---- statements
     def effect(self, d):
         r = self.rng.random()
-        t = self.pick(["bool", "int", "uint", "string", "vobj"])
+        t = self.pick(["bool", "int", "uint", "string", "vobj", "double"])
         if r < 0.45:
             return ("expr", ("assign", ("member", self.obj(d), PROP[t]), self.typed(t, d + 1) if t in ("int", "uint") else self.expr(t, d + 1)))
         if r < 0.65:
@@ -158,7 +178,7 @@ class Gen:
         if r < 0.85:
             n = self.rng.randrange(1, 3)
             return ("expr", ("call", ("member", ("ident", "console"), self.pick(["log", "info", "warn", "error", "debug"])),
-                             [self.typed(self.pick(["bool", "int", "uint", "string"]), d + 1) for _ in range(n)]))
+                             [self.typed(self.pick(["bool", "int", "uint", "string", "double"]), d + 1) for _ in range(n)]))
         ls = [n for n, (tt, k, init) in self.visible().items() if k == "let"]
         if ls:
             name = self.pick(ls)
@@ -185,7 +205,7 @@ class Gen:
         return self.pick(names) if names else None
 
     def decl(self, d):
-        t = self.pick(["bool", "int", "uint", "string", "vobj", "int"])
+        t = self.pick(["bool", "int", "uint", "string", "vobj", "int", "double"])
         name = self.shadow_name() if (self.chance(0.3) and not self.clause_scope[-1:] == [len(self.scopes)]) else None
         if name is None:
             name = self.fresh()
@@ -387,7 +407,15 @@ class Gen:
         return out
 
     def binding(self):
-        t = self.pick(["bool", "int", "int", "uint", "string", "vobj"])
+        t = self.pick(["bool", "int", "int", "uint", "string", "vobj", "double"])
+        if self.chance(0.06):
+            # the usual NaN test on a local: r != r (true exactly for a NaN); 0.0 / 0.0 and inf - inf reach it through the worlds
+            t = self.pick(["double", "bool", "int", "string"])
+            num, den = self.prop("double", 1), self.prop("double", 1)
+            test = ("binary", self.pick(["!=", "==", "!=", "<", ">="]), ("ident", "r"), ("ident", "r"))
+            tail = {"double": ("ternary", test, ("unary", "-", ("float", "1.0")), ("ident", "r")), "bool": test,
+                    "int": ("ternary", test, ("int", 1), ("int", 2)), "string": ("ternary", test, ("str", "n/a"), ("str", "ok"))}[t]
+            return ("binding_block", [("decl", "let", [("r", None, ("binary", self.pick(["/", "-", "*"]), num, den))]), ("return", tail)]), t
         if self.chance(0.45):
             e = self.typed(t, 0) if t in ("int", "uint") else self.expr(t, 0)
             return ("binding_expr", e), t
@@ -427,7 +455,7 @@ class Gen:
         if r < 0.5:
             return ("binding_block", self.block(0, None, n=self.rng.randrange(1, 5))), ()
         params = []
-        sig = self.pick([("int",), ("bool",), ("string",), ("int", "string"), ("int", "string"), ()])
+        sig = self.pick([("int",), ("bool",), ("string",), ("int", "string"), ("int", "string"), (), ("double",)])
         take = self.rng.randrange(0, len(sig) + 1)
         for t in sig[:take]:
             n = self.fresh()
@@ -478,7 +506,8 @@ class TotalGen:
         return e, guards
 
     def default(self, ty):
-        return {"bool": ("bool", False), "int": ("member", ("ident", "sub"), "i"), "uint": ("member", ("ident", "sub"), "u"), "string": ("str", "none"), "vobj": ("null",)}[ty]
+        return {"bool": ("bool", False), "int": ("member", ("ident", "sub"), "i"), "uint": ("member", ("ident", "sub"), "u"), "string": ("str", "none"), "vobj": ("null",),
+                "double": ("member", ("ident", "sub"), "d")}[ty]
 
     def read(self, ty):
         p, guards = self.path()
@@ -503,8 +532,12 @@ class TotalGen:
                 return ("unary", "!", self.expr("bool", d + 1))
             if r < 0.6:
                 return ("binary", self.pick(["&&", "||"]), self.expr("bool", d + 1), self.expr("bool", d + 1))
-            t = self.pick(["int", "uint", "string"])
+            t = self.pick(["int", "uint", "string", "double"])
             return ("binary", self.pick(["==", "!=", "<", ">="]), self.expr(t, d + 1), self.expr(t, d + 1))
+        if ty == "double":
+            if r < 0.65:
+                return ("binary", self.pick(["+", "-", "*", "/"]), self.expr("double", d + 1), self.pick([self.expr("double", d + 1), ("float", self.pick(FLOAT_LITS))]))
+            return ("ternary", self.expr("bool", d + 1), self.expr("double", d + 1), self.expr("double", d + 1))
         if ty == "int":
             if r < 0.6:
                 return ("binary", self.pick(["&", "|", "^"]), self.expr("int", d + 1), self.pick([self.expr("int", d + 1), ("int", self.pick([1, 3, 255]))]))
@@ -520,7 +553,7 @@ class TotalGen:
         return self.read("vobj")
 
     def binding(self):
-        t = self.pick(["bool", "int", "uint", "string", "vobj", "int", "string"])
+        t = self.pick(["bool", "int", "uint", "string", "vobj", "int", "string", "double"])
         r = self.rng.random()
         if r < 0.15 and t in ("int", "uint", "string", "bool"):
             # a pointer local re-pointed between two reads of the same property (both objects chosen dynamically, never null)
